@@ -59,4 +59,51 @@ def lemma_assignment_split(repo):
                        z3.Length(b) >= 1, 0, {'expr': "s in L(\\w+=KB_VAL), s = a'='b, '=' not in a  implies  len(b) >= 1"})]
 
 
-LEMMAS = [lemma_keybinding_values_are_never_empty, lemma_assignment_split]
+# what str()/repr() of a Python float can look like when it has a fraction part, plus the special values
+# (the exponent form without '.', e.g. 1e+22, is the known finding float-exponent-without-dot-rejected)
+PRINTED_REAL = r'-?(?:[0-9]+\.[0-9]+(?:e[+-][0-9]+)?|inf)|nan'
+DSP0004_REAL = r'[+-]?[0-9]*\.[0-9]+(?:[eE][+-]?[0-9]+)?'
+
+
+def lemma_real_value_pattern(repo):
+    """REAL_VALUE (the gate of _realValue_to_float, which types real keybindings of a URI) accepts every text that
+    Python prints for a float with a fraction part - lower-case exponent marker, inf, -inf, nan - and every DSP0004
+    realValue; and everything it accepts is a realValue or one of the special words in some letter case (so that
+    float() cannot raise ValueError on it, as the documentation of _realValue_to_float claims)."""
+    import re
+    v = fold_const(repo, 'pywbem._utils', 'REAL_VALUE')
+    cre = v.obj
+    got = cre.language('match')
+    s = z3.String('s')
+    obls = []
+
+    def mk(name, hyp_pat, expr):
+        lang = rx.compile_re(hyp_pat).language('fullmatch')
+
+        def replay(model, hyp_pat=hyp_pat):
+            w = model.eval(s, model_completion=True).as_string()
+            real = re.compile(cre.pattern, cre.flags).match(w) is not None
+            return {'confirmed': re.fullmatch(hyp_pat, w) is not None and not real, 'witness': w, 'REAL_VALUE_matches': real}
+        obls.append(Obligation(f'pywbem/_utils.py::REAL_VALUE::{name}', 'lemma', [z3.InRe(s, lang)], z3.InRe(s, got), 0,
+                               {'expr': expr, 'replay_fn': replay, 'var': s}))
+    mk('accepts-what-python-prints-for-a-float', PRINTED_REAL, f'L({PRINTED_REAL!r}) <= L(REAL_VALUE)')
+    mk('accepts-every-DSP0004-realValue', DSP0004_REAL, f'L({DSP0004_REAL!r}) <= L(REAL_VALUE)')
+    # ('$' also matches before a trailing newline; float() accepts that too, so it is not excluded here)
+    upper = rx.compile_re('(?:' + DSP0004_REAL + r'|[+-]?(?:[iI][nN][fF]|[nN][aA][nN]))\n?').language('fullmatch')
+
+    def replay2(model):
+        w = model.eval(s, model_completion=True).as_string()
+        real = re.compile(cre.pattern, cre.flags).match(w) is not None
+        try:
+            float(w)
+            ok = True
+        except ValueError:
+            ok = False
+        return {'confirmed': real and not ok, 'witness': w, 'float_accepts': ok}
+    obls.append(Obligation('pywbem/_utils.py::REAL_VALUE::accepts-only-realValue-or-inf-nan-words', 'lemma', [z3.InRe(s, got)],
+                           z3.InRe(s, upper), 0, {'expr': 'L(REAL_VALUE) <= L((realValue | [+-]?inf | [+-]?nan, any case) + optional newline)',
+                                                  'replay_fn': replay2, 'var': s}))
+    return obls
+
+
+LEMMAS = [lemma_keybinding_values_are_never_empty, lemma_assignment_split, lemma_real_value_pattern]
